@@ -248,6 +248,157 @@ func RunCheck(t *testing.T, chk Check) int {
 		}
 		res.inconcl = append(res.inconcl, c.inconcl...)
 	}
+	var finMu sync.Mutex
+	finalized := false
+	finalize := func() int {
+		finMu.Lock()
+		defer finMu.Unlock()
+		if finalized {
+			select {} // another goroutine is already writing the verdict and will exit the process
+		}
+		finalized = true
+		rmu.Lock()
+		defer rmu.Unlock()
+		// verdict
+		kn := loadKnown(*FlagVerif)
+		sort.SliceStable(res.violations, func(i, j int) bool { return res.violations[i].CaseID < res.violations[j].CaseID })
+		newViol := 0
+		knownSeen := map[string]bool{}
+		repdir := filepath.Join(*FlagVerif, "replays")
+		os.MkdirAll(repdir, 0o755)
+		for i := range res.violations {
+			v := &res.violations[i]
+			matched := false
+			for _, k := range kn {
+				if k.prop == v.Property && k.sig.MatchString(v.Sig) {
+					matched = true
+					v.Known = k.text
+					if !knownSeen[k.prop+k.sig.String()] {
+						knownSeen[k.prop+k.sig.String()] = true
+						fmt.Printf("KNOWN-FINDING: property=%s %s (sig=%s, e.g. case %s)\n", v.Property, k.text, v.Sig, v.CaseID)
+					}
+					break
+				}
+			}
+			if matched {
+				continue
+			}
+			newViol++
+			if newViol > *FlagMaxViol {
+				continue
+			}
+			name := fmt.Sprintf("%s_%s_%d_%08x.json", v.Property, chk.Prop, seed, hash(v.CaseID+v.Sig))
+			path := filepath.Join(repdir, name)
+			b, _ := json.MarshalIndent(v, "", " ")
+			os.WriteFile(path, b, 0o644)
+			fmt.Printf("VIOLATION property=%s replay=%s\n", v.Property, path)
+			fmt.Printf("  sig=%s case=%s: %s\n", v.Sig, v.CaseID, v.Msg)
+		}
+		nontriv := len(res.nontrivial)
+		inconclusive := len(res.inconcl) > 0
+		if *FlagCase == "" && nontriv < chk.MinNontrivial {
+			res.inconcl = append(res.inconcl, fmt.Sprintf("only %d distinct non-trivial cases (< %d)", nontriv, chk.MinNontrivial))
+			inconclusive = true
+		}
+		// evidence
+		if *FlagCase == "" && os.Getenv("VERIF_NOEVIDENCE") == "" && chk.Level != "" && len(chk.Prop) == 3 {
+			cov := map[string]any{
+				"evaluations":         res.cases,
+				"distinct_nontrivial": nontriv,
+				"rule":                chk.Rule,
+				"samples":             res.samples,
+				"counters":            res.counters,
+				"known_findings_seen": len(knownSeen),
+			}
+			if chk.Exhaustive {
+				cov["exhaustive"] = true
+			}
+			if len(res.samples) == 0 {
+				cov["samples"] = []any{"(no sample recorded)"}
+			}
+			if len(res.inconcl) > 0 {
+				cov["inconclusive"] = res.inconcl
+			}
+			assumptions := chk.Assumptions
+			if assumptions == nil {
+				assumptions = []string{}
+			}
+			ev := map[string]any{
+				"property_id": chk.Prop,
+				"tier":        tier,
+				"seed":        seed,
+				"level":       chk.Level,
+				"coverage":    cov,
+				"assumptions": assumptions,
+				"wall_s":      time.Since(start).Seconds(),
+				"violations":  newViol,
+			}
+			b, _ := json.MarshalIndent(ev, "", " ")
+			os.MkdirAll(filepath.Join(*FlagVerif, "evidence"), 0o755)
+			os.WriteFile(filepath.Join(*FlagVerif, "evidence", chk.Prop+".json"), b, 0o644)
+		}
+		keys := make([]string, 0, len(res.counters))
+		for k := range res.counters {
+			keys = append(keys, k)
+		}
+		sort.Strings(keys)
+		var sb strings.Builder
+		for _, k := range keys {
+			fmt.Fprintf(&sb, " %s=%d", k, res.counters[k])
+		}
+		fmt.Printf("OBSERVED property=%s tier=%s seed=%d cases=%d nontrivial=%d%s wall=%.1fs\n", chk.Prop, tier, seed, res.cases, nontriv, sb.String(), time.Since(start).Seconds())
+		switch {
+		case newViol > 0:
+			fmt.Printf("VERIF-DONE property=%s verdict=violated new=%d\n", chk.Prop, newViol)
+			return 1
+		case inconclusive:
+			for _, s := range res.inconcl {
+				fmt.Printf("INCONCLUSIVE property=%s %s\n", chk.Prop, s)
+			}
+			fmt.Printf("VERIF-DONE property=%s verdict=inconclusive\n", chk.Prop)
+			return 2
+		}
+		fmt.Printf("VERIF-DONE property=%s verdict=held\n", chk.Prop)
+		return 0
+	}
+	// wall-clock watchdog per case: a case that does not finish (e.g. goroutines of the code under test blocked on a
+	// mutex inside a bubble, which virtual time cannot resolve) ends the run as inconclusive - after the verdict lines
+	// of everything found so far were written.
+	caseLimit := 300 * time.Second
+	if v := os.Getenv("VERIF_CASE_WATCHDOG"); v != "" {
+		if d, err := time.ParseDuration(v); err == nil {
+			caseLimit = d
+		}
+	}
+	var runMu sync.Mutex
+	running := map[string]time.Time{}
+	stopWatch := make(chan struct{})
+	go func() {
+		tk := time.NewTicker(2 * time.Second)
+		defer tk.Stop()
+		for {
+			select {
+			case <-stopWatch:
+				return
+			case <-tk.C:
+				runMu.Lock()
+				stuck := ""
+				for id, t0 := range running {
+					if time.Since(t0) > caseLimit {
+						stuck = id
+					}
+				}
+				runMu.Unlock()
+				if stuck != "" {
+					rmu.Lock()
+					res.inconcl = append(res.inconcl, fmt.Sprintf("case %s did not finish within %v of wall-clock time (watchdog); remaining cases not executed", stuck, caseLimit))
+					rmu.Unlock()
+					code := finalize()
+					os.Exit(code)
+				}
+			}
+		}
+	}()
 	ch := make(chan int)
 	var wg sync.WaitGroup
 	runOne := func(t *testing.T, cs Case, worker int) {
@@ -255,6 +406,9 @@ func RunCheck(t *testing.T, chk Check) int {
 			Rng:      rand.New(rand.NewSource(seed*1_000_003 + int64(hash(cs.ID)))),
 			counters: map[string]int64{}, nontrivial: map[string]bool{}}
 		journal("START " + cs.ID)
+		runMu.Lock()
+		running[cs.ID] = time.Now()
+		runMu.Unlock()
 		body := func() {
 			defer func() {
 				if r := recover(); r != nil {
@@ -269,6 +423,9 @@ func RunCheck(t *testing.T, chk Check) int {
 			body()
 		}
 		journal("END " + cs.ID)
+		runMu.Lock()
+		delete(running, cs.ID)
+		runMu.Unlock()
 		merge(c)
 	}
 	t.Run("cases", func(t *testing.T) {
@@ -297,109 +454,8 @@ func RunCheck(t *testing.T, chk Check) int {
 		res.cases--
 		merge(c)
 	}
-	jf.Close()
-
-	// verdict
-	kn := loadKnown(*FlagVerif)
-	sort.SliceStable(res.violations, func(i, j int) bool { return res.violations[i].CaseID < res.violations[j].CaseID })
-	newViol := 0
-	knownSeen := map[string]bool{}
-	repdir := filepath.Join(*FlagVerif, "replays")
-	os.MkdirAll(repdir, 0o755)
-	for i := range res.violations {
-		v := &res.violations[i]
-		matched := false
-		for _, k := range kn {
-			if k.prop == v.Property && k.sig.MatchString(v.Sig) {
-				matched = true
-				v.Known = k.text
-				if !knownSeen[k.prop+k.sig.String()] {
-					knownSeen[k.prop+k.sig.String()] = true
-					fmt.Printf("KNOWN-FINDING: property=%s %s (sig=%s, e.g. case %s)\n", v.Property, k.text, v.Sig, v.CaseID)
-				}
-				break
-			}
-		}
-		if matched {
-			continue
-		}
-		newViol++
-		if newViol > *FlagMaxViol {
-			continue
-		}
-		name := fmt.Sprintf("%s_%s_%d_%08x.json", v.Property, chk.Prop, seed, hash(v.CaseID+v.Sig))
-		path := filepath.Join(repdir, name)
-		b, _ := json.MarshalIndent(v, "", " ")
-		os.WriteFile(path, b, 0o644)
-		fmt.Printf("VIOLATION property=%s replay=%s\n", v.Property, path)
-		fmt.Printf("  sig=%s case=%s: %s\n", v.Sig, v.CaseID, v.Msg)
-	}
-	nontriv := len(res.nontrivial)
-	inconclusive := len(res.inconcl) > 0
-	if *FlagCase == "" && nontriv < chk.MinNontrivial {
-		res.inconcl = append(res.inconcl, fmt.Sprintf("only %d distinct non-trivial cases (< %d)", nontriv, chk.MinNontrivial))
-		inconclusive = true
-	}
-	// evidence
-	if *FlagCase == "" && os.Getenv("VERIF_NOEVIDENCE") == "" && chk.Level != "" && len(chk.Prop) == 3 {
-		cov := map[string]any{
-			"evaluations":         res.cases,
-			"distinct_nontrivial": nontriv,
-			"rule":                chk.Rule,
-			"samples":             res.samples,
-			"counters":            res.counters,
-			"known_findings_seen": len(knownSeen),
-		}
-		if chk.Exhaustive {
-			cov["exhaustive"] = true
-		}
-		if len(res.samples) == 0 {
-			cov["samples"] = []any{"(no sample recorded)"}
-		}
-		if len(res.inconcl) > 0 {
-			cov["inconclusive"] = res.inconcl
-		}
-		assumptions := chk.Assumptions
-		if assumptions == nil {
-			assumptions = []string{}
-		}
-		ev := map[string]any{
-			"property_id": chk.Prop,
-			"tier":        tier,
-			"seed":        seed,
-			"level":       chk.Level,
-			"coverage":    cov,
-			"assumptions": assumptions,
-			"wall_s":      time.Since(start).Seconds(),
-			"violations":  newViol,
-		}
-		b, _ := json.MarshalIndent(ev, "", " ")
-		os.MkdirAll(filepath.Join(*FlagVerif, "evidence"), 0o755)
-		os.WriteFile(filepath.Join(*FlagVerif, "evidence", chk.Prop+".json"), b, 0o644)
-	}
-	keys := make([]string, 0, len(res.counters))
-	for k := range res.counters {
-		keys = append(keys, k)
-	}
-	sort.Strings(keys)
-	var sb strings.Builder
-	for _, k := range keys {
-		fmt.Fprintf(&sb, " %s=%d", k, res.counters[k])
-	}
-	fmt.Printf("OBSERVED property=%s tier=%s seed=%d cases=%d nontrivial=%d%s wall=%.1fs\n", chk.Prop, tier, seed, res.cases, nontriv, sb.String(), time.Since(start).Seconds())
-	switch {
-	case newViol > 0:
-		fmt.Printf("VERIF-DONE property=%s verdict=violated new=%d\n", chk.Prop, newViol)
-		return 1
-	case inconclusive:
-		for _, s := range res.inconcl {
-			fmt.Printf("INCONCLUSIVE property=%s %s\n", chk.Prop, s)
-		}
-		fmt.Printf("VERIF-DONE property=%s verdict=inconclusive\n", chk.Prop)
-		return 2
-	}
-	fmt.Printf("VERIF-DONE property=%s verdict=held\n", chk.Prop)
-	return 0
+	close(stopWatch)
+	return finalize()
 }
 
 func hash(s string) uint32 {
